@@ -4,6 +4,7 @@ package main
 // is recorded in libUsed and reported in the evidence as an assumption.
 
 import (
+	"go/token"
 	"fmt"
 	"go/constant"
 	"go/types"
@@ -285,6 +286,19 @@ func (e *Exec) libModel(st *State, callee *ssa.Function, cc *ssa.CallCommon, arg
 		e.store(st, args[0], nv)
 		set(Val{T: tBool, S: ok})
 		return true, true, nil
+	case "(*sync/atomic.Value).Load", "(*sync/atomic.Value).Store":
+		// sequential model of atomic.Value: the boxed value lives in the struct's field v.
+		// (Writers of the values modelled here serialise on a mutex; a reader sees one stored value.)
+		used()
+		vt := cc.Args[0].Type().Underlying().(*types.Pointer).Elem()
+		fa := e.fieldAddrOf(st, args[0], vt, 0, pos)
+		if name == "(*sync/atomic.Value).Load" {
+			set(e.load(st, fa))
+		} else {
+			e.check(st, "panic", "atomic.Value.Store(nil)", fmt.Sprintf("(not (= (i-tag %s) 0))", args[1].S), pos)
+			e.store(st, fa, args[1])
+		}
+		return true, true, nil
 	case "(*sync.Mutex).Lock", "(*sync.Mutex).Unlock", "(*sync.RWMutex).Lock", "(*sync.RWMutex).Unlock", "(*sync.RWMutex).RLock", "(*sync.RWMutex).RUnlock":
 		if e.eng.tmLock != nil {
 			e.eng.tmLock(e, st, name, cc, args)
@@ -475,4 +489,18 @@ func (e *Exec) bufSet(st *State, bt types.Type, ref, val string) {
 	k, srt := e.heapKey(bt, e.bufField(bt))
 	m := e.memGet(st, k, srt)
 	e.memSet(st, k, srt, fmt.Sprintf("(store %s %s %s)", m, ref, val))
+}
+
+// fieldAddrOf: the address of field i of the struct p points to (as ssa.FieldAddr would compute it).
+func (e *Exec) fieldAddrOf(st *State, p Val, stt types.Type, field int, pos token.Pos) Val {
+	ft := stt.Underlying().(*types.Struct).Field(field).Type()
+	if p.A != nil {
+		na := *p.A
+		na.Steps = append(append([]step(nil), p.A.Steps...), step{field: field, st: stt})
+		na.T = ft
+		return Val{T: types.NewPointer(ft), A: &na}
+	}
+	e.checkNonNil(st, p.S, "field", pos)
+	k, _ := e.heapKey(stt, field)
+	return Val{T: types.NewPointer(ft), A: &Addr{Kind: AHeap, Key: k, Ref: p.S, Root: ft, T: ft}}
 }
